@@ -1,7 +1,7 @@
 (* Props/C14.v — Graceful shutdown: in-flight requests finish, nothing new starts, waiter woken.
    Only statements.  Models: Async/WaitGroup.v (WaitGroupFuture / TaskToken of src/async_io/util.rs, with a
    token drop forced into each window of poll) and Async/Conn.v (Token::run with the stop listener). *)
-From FV Require Import Base.Bytes Parser.ReqModel Parser.StreamModel Async.Conn Async.ConnWrites Async.ConnTotal Async.ConnReads Async.LoopTargets2 Async.LoopProofs2 Async.WaitGroup Async.SyncTargets Async.SyncProofs.
+From FV Require Import Base.Bytes Parser.ReqModel Parser.StreamModel Async.Conn Async.ConnWrites Async.ConnTotal Async.ConnReads Async.LoopTargets2 Async.LoopProofs2 Async.ConnLoop Async.WaitGroup Async.SyncTargets Async.SyncProofs.
 
 (* the representation invariant holds after every history, for every number of tokens and every
    placement of token drops into the windows of WaitGroupFuture::poll *)
@@ -39,6 +39,19 @@ Example C14_example :
   (* one token; its drop lands between Weak::upgrade and the waker registration: Pending, but woken *)
   wg_poll 2 1 (wg_init 1) = (false, mkWG 0 true false 1, 0).
 Proof. reflexivity. Qed.
+
+(* idle connections: while the client keeps silent (its next bytes are gated) the read between requests is given up as soon as
+   a shutdown is requested: the connection task returns at once, nothing further is read, nothing is written *)
+Theorem C14_idle_connection_stops : forall f L w,
+  L <> 0 -> ConnReads.gated w -> stop_at w <> 0 -> stopped w = false ->
+  await_read (S f) true L w = Halt ORet (w_stop w).
+Proof. exact idle_read_is_interrupted. Qed.
+
+(* ... and a shutdown requested while that read was merely not ready is noticed at its next wake-up *)
+Theorem C14_pending_read_sees_stop : forall f L w w1,
+  t_poll_read L w = (PWake, w1) -> stopped (w_bump w1) = true ->
+  await_read (S f) true L w = Halt ORet (w_bump w1).
+Proof. exact idle_read_sees_stop. Qed.
 
 (* ==== pinned from the proof files (tools/write_props.py) ==== *)
 
